@@ -76,7 +76,7 @@ CHECKS = {
     ),
     "C13": dict(
         text="Manager.tla models the call machine as the code structures it (CallStart, PrepSkip/Run/Refuse, Answer in submission order or Spawn + WorkerDone in any order, CallReturn/CallRaise); TLC checks all histories within small bounds and shows that the originally coded text-keyed plumbing variant violates RowsOwnKey. Histories (seeded, and TLC-simulated behaviours) are executed on real managers of every operator/back-end/mode under an external recorder and each recorded trace is validated by TLC against the machine: every event must be matched by the spec action with the logged fields bound, rows must equal the spec's table, no child process may be alive at return. The repository's own tests run under the same recorder (pytest plugin) and every manager they create is validated the same way.",
-        note="Reference answer of a query = its answer alone on a fresh manager. Scenarios include queries over atoms outside the base and literal sweeps (all 36 conditionals between literals over 3 atoms in long sequential batches). Every returned row's descriptive columns must repeat the manager's configuration. The by-index plumbing lemma (spec/ManagerLemma.tla) is proved by TLAPS for any batch size and re-checked on every run. Worker completion orders are varied by delays, not enumerated on the real code (they are enumerated in the model).",
+        note="Reference answer of a query = its answer alone on a fresh manager. Scenarios include queries over atoms outside the base and literal sweeps (all 36 conditionals between literals over 3 atoms in long sequential batches). Every returned row's descriptive columns must repeat the manager's configuration. RowsOwnKey is additionally proved by TLAPS as a consequence of an inductive invariant of Manager.tla for any queries, keys, batch sizes, completion orders and time-out placements (spec/ManagerProof.tla, 404 obligations), re-checked on every run. Worker completion orders are varied by delays, not enumerated on the real code (they are enumerated in the model).",
         ref="6 C13", tech="TLA+ state machine model-checked by TLC; TLC trace validation of recorded executions (IsEvent pattern); TLC-simulated behaviours replayed",
     ),
     "C14": dict(
